@@ -17,13 +17,16 @@ import vlib
 LEVEL = "proof"
 RULE = ("generated argument sets for generate_data (n_features 1..12, n_samples 1..60; thorough up to 30x500): structure "
         "None / [] / entries (index | np.int64 | index list | index ndarray) x (cardinality | value list | value ndarray | "
-        "[values, frequencies]) as tuples, lists or a 2-D ndarray, ensure_rep on/off incl. n_samples = |domain| and +-1, "
-        "random_values with (low, high) incl. high-low+1 = cardinality, k, seeds; ~10% unsorted structures (replay only, "
-        "outside the positions hypothesis); naive generator sizes >= 31 features and the data_generator task; "
-        "non-trivial = n_samples >= 2 and some column domain with >= 2 values; distinct = distinct argument sets")
+        "[values, frequencies]) as tuples, lists or a 2-D ndarray, ~25% of multi-entry structures in a non-increasing order "
+        "(shuffled entries, shuffled / interleaved index lists), ensure_rep on/off incl. n_samples = |domain| and +-1, "
+        "random_values with (low, high) incl. high-low+1 = cardinality, k, seeds; ~3% value lists outside int32 (stated "
+        "precondition: counted, only dtype/shape/determinism checked); naive generator sizes >= 31 features and the "
+        "data_generator task; non-trivial = n_samples >= 2 and some column domain with >= 2 values; distinct = distinct "
+        "argument sets")
 THEOREMS = ["C19_shape", "C19_domain", "C19_positions", "C19_positions_at", "C19_positions_default",
-            "C19_positions_unsorted_refuted", "C19_ensure_rep", "C19_ensure_rep_prefix_refuted", "C19_deterministic",
-            "C19_seeded", "C19_check_sound", "C19_model_ok", "C19_naive", "C19_naive_needle_only",
+            "C19_positions_duplicates_rejected", "C19_positions_unsorted_prefix_refuted", "C19_ensure_rep",
+            "C19_ensure_rep_prefix_refuted", "C19_deterministic_partial", "C19_seeded", "C19_call_pattern", "C19_progress",
+            "C19_progress_wf", "C19_check_sound", "C19_model_ok", "C19_naive", "C19_naive_needle_only",
             "C19_naive_precondition", "C19_csv_rows"]
 INT32_MIN, INT32_MAX = -2 ** 31, 2 ** 31 - 1
 
@@ -76,14 +79,15 @@ def is_sorted_structure(case):
     return all(a < b for a, b in zip(fl, fl[1:])) and all(0 <= i < case["n_features"] for i in fl)
 
 
-def fits(case):
-    """the code's running counter never passes n_features (else IndexError)"""
-    ix = 0
-    for fi in flat_indices(case):
-        if ix < fi:
-            ix = fi
-        ix += 1
-    return ix <= case["n_features"]
+def is_wf_structure(case):
+    """every index described once and < n_features, in any order (Coq: wf_structure)"""
+    fl = flat_indices(case)
+    return len(set(fl)) == len(fl) and all(0 <= i < case["n_features"] for i in fl)
+
+
+def outside_int32(case):
+    return any(not (INT32_MIN <= v <= INT32_MAX) for e in case["structure"] or [] if e["attr"]["kind"] != "card"
+               for v in e["attr"]["vs"])
 
 
 def domain_sizes(case):
@@ -111,6 +115,9 @@ def gen_case(rng, big=False):
     else:
         m = rng.randint(1, min(nf, 6))
         idxs = sorted(rng.sample(range(nf), m))
+        unsorted = m >= 2 and rng.random() < 0.25
+        if unsorted and rng.random() < 0.5:
+            rng.shuffle(idxs)                     # interleaved index lists, e.g. ([4, 1], ..), (2, ..)
         entries = []
         i = 0
         while i < m:
@@ -125,13 +132,16 @@ def gen_case(rng, big=False):
             e["attr"] = gen_attr(rng)
             e["entry_form"] = rng.choice(["tuple", "tuple", "list"])
         case["structure"] = entries
-        if len(entries) >= 2 and rng.random() < 0.2:      # unsorted: outside the positions hypothesis
+        if unsorted:                                      # the order of the description must not matter
             for _ in range(5):
-                rng.shuffle(entries)
                 if not is_sorted_structure(case):
                     break
-            if not fits(case):
-                entries.sort(key=lambda e: e["ix"] if isinstance(e["ix"], int) else e["ix"][0])
+                rng.shuffle(entries)
+        if rng.random() < 0.03:                           # stated precondition: values outside int32 (inside int64)
+            vals = [e for e in entries if e["attr"]["kind"] != "card"]
+            if vals:
+                at = rng.choice(vals)["attr"]
+                at["vs"][rng.randrange(len(at["vs"]))] = rng.choice([2 ** 31, 3000000000, -2 ** 31 - 1, 2 ** 40 + 7])
         if (all(isinstance(e["ix"], int) and e["attr"]["kind"] == "card" for e in entries) and rng.random() < 0.3):
             case["structure_form"] = "ndarray2d"
     # ensure_rep boundary: n_samples = some domain size (or one off)
@@ -255,6 +265,9 @@ def cells(c):
     return c["n_features"] * c["n_samples"] if c.get("kind", "gen") == "gen" else c["num_features"] * c["size"]
 
 
+KIND = {("seed", 0): 0, ("choice", 0): 1, ("randint", 0): 2, ("shuffle", 0): 3, ("randint", 2): 4, ("permutation", 0): 5}
+
+
 def drawn_matrix(trace):
     return trace[0]["ans"] if len(trace) == 1 and trace[0].get("fn") == "randint" else None
 
@@ -323,7 +336,7 @@ def check(run, replay):
     hist = {"kinds": {}, "structure": {"none": 0, "empty": 0, "sorted": 0, "unsorted": 0, "ndarray2d": 0},
             "attr_kinds": {}, "index_forms": {}, "ensure_rep": 0, "ensure_rep_boundary": 0, "random_values": 0,
             "random_values_tight_bounds": 0, "n_features": {}, "n_samples_bucket": {}, "impl_errors": 0,
-            "rng_calls": 0}
+            "rng_calls": 0, "outside_int32_precondition": 0}
     exprs, idx = [], []
     direct = {}          # case index -> list of (clause, detail) found without Coq
     for i, (c, r) in enumerate(zip(cases, res)):
@@ -335,6 +348,8 @@ def check(run, replay):
             run.count_case(c, nontriv)
             st = c["structure"]
             sk = ("none" if st is None else "empty" if not st else "sorted" if is_sorted_structure(c) else "unsorted")
+            if sk == "unsorted" and any(isinstance(e["ix"], list) and e["ix"] != sorted(e["ix"]) for e in st):
+                hist["structure"]["unsorted_index_list"] = hist["structure"].get("unsorted_index_list", 0) + 1
             hist["structure"][sk] += 1
             if c.get("structure_form") == "ndarray2d" and st:
                 hist["structure"]["ndarray2d"] += 1
@@ -366,7 +381,10 @@ def check(run, replay):
             if not int_matrix(X):
                 direct[i].append(("cells are integers", "non-integer cells"))
                 continue
-            exprs.append("let a := %s in (C19_enc (generate a %s), valid_dataset a %s, sorted_structure a)" % (
+            if outside_int32(c):
+                hist["outside_int32_precondition"] += 1      # numpy wraps silently; nothing is claimed, only counted
+                continue
+            exprs.append("let a := %s in (C19_enc (generate a %s), valid_dataset a %s, wf_structure a, call_pattern a)" % (
                 args_lit(c), stream_lit(r["trace"]), zm(X)))
             idx.append(i)
         else:
@@ -388,28 +406,29 @@ def check(run, replay):
 
     vals = vlib.coq_eval("C19", HEADER, exprs, shard=24 if run.tier == "quick" else 60, jobs=14)
 
-    broken = []          # (case index, description) : replay did not reproduce, validator fine
-    informational = 0
+    broken = []          # (case index, description, is a call-pattern divergence) : replay did not reproduce, validator fine
     replayed = 0
+    gen_in_scope = 0
     for i, v in zip(idx, vals):
         c, r = cases[i], res[i]
         kind = c.get("kind", "gen")
         if kind == "gen":
-            status, Xm, valid, srt = v
-            if srt != is_sorted_structure(c):
-                raise vlib.Broken("harness:sorted_structure", "python/Coq disagree on %s" % json.dumps(c))
+            status, Xm, valid, wf, pattern = v
+            if wf != is_wf_structure(c) or not wf:
+                raise vlib.Broken("harness:wf_structure", "python/Coq disagree, or generated structure not well-formed: %s"
+                                  % json.dumps(c))
+            gen_in_scope += 1
             same = status == 0 and Xm == r["X"]
             if same:
                 replayed += 1
-            if srt and not valid:
+            if not valid:
                 direct[i].append(("valid_dataset (C19_check_sound): shape / per-column domain of the declared feature at "
                                   "its declared index / ensure_rep", "validator rejects the implementation's data set; "
                                   "model replay %s" % ("equal" if same else "status %d" % status)))
             elif not same:
-                if srt:
-                    broken.append((i, "model status %d%s" % (status, "" if status else ", matrix differs")))
-                else:
-                    informational += 1
+                kinds = [KIND.get((e.get("fn"), min(e.get("ans_ndim", 0), 2) if e.get("fn") == "randint" else 0), 9)
+                         for e in r["trace"]]
+                broken.append((i, "model status %d%s" % (status, "" if status else ", matrix differs"), kinds != pattern))
         else:
             status, rows, target = v
             if kind == "naive":
@@ -418,7 +437,7 @@ def check(run, replay):
                     if bad:
                         direct[i].append(("naive generator, decidable without the recorded draw: " + bad, "replay status %d" % status))
                     else:
-                        broken.append((i, "naive model status %d" % status))
+                        broken.append((i, "naive model status %d: the drawn needle is not observable" % status, False))
                 elif target != r["target"]:
                     direct[i].append(("C19_naive: label = 1 iff the drawn needle value (column 30) >= 40",
                                       "labels differ from the model's on the recorded draw"))
@@ -440,7 +459,7 @@ def check(run, replay):
                         direct[i].append(("data_generator task, decidable without the recorded draw: " + bad,
                                           "replay status %d" % status))
                     else:
-                        broken.append((i, "task model status %d" % status))
+                        broken.append((i, "task model status %d: the drawn needle is not observable" % status, False))
                 elif (r["header"] != want_header or got is None or r["files"] != ["data.csv"] or target != [g[-1] for g in got]
                       or not rows_agree([m[:-1] for m in rows], [g[:-1] for g in got], drawn_matrix(r["trace"]))):
                     direct[i].append(("data.csv = header f0..f{n-1},label and one row per sample with its label",
@@ -458,26 +477,40 @@ def check(run, replay):
                       extra={"all_failing_cases": len(failing)})
     run.oblige("correspondence:same-seed-twice / dtype / shape on the real code",
                not any(direct[i] for i in direct), "%d failing cases" % len(failing))
-    # Replay not reproducing while the validator (sound: C19_check_sound) accepts the output and every direct clause
-    # check passes on EVERY case: the RNG call pattern is not the one the model transcribes (a rewrite of the sampling
-    # core); the property is then decided by the validator alone and the check stays quiet.  Any failing clause on
-    # any case is a VIOLATION with its concrete arguments (above).
-    run.oblige("correspondence:trace replay reproduces the implementation's matrix, or (RNG call pattern differs) the Coq "
-               "validator accepts the output and dtype/shape/same-seed checks pass", not (broken and failing),
-               "replayed exactly %d; validator-decided %d%s" % (replayed, len(broken),
-                                                               ("; first: " + broken[0][1]) if broken else ""))
-    if broken:
-        nv = sum(1 for i, _ in broken if cases[i].get("kind", "gen") == "gen")
-        run.notes.append("trace replay not applicable to this RNG call pattern; property decided by the Coq validator "
-                         "(C19_check_sound) on %d outputs (of %d generate_data cases; %d naive/task outputs decided by the "
-                         "clauses observable without the recorded draw); dtype, shape and same-seed determinism (second call "
-                         "on the same instance after extra draws, fresh instance with another constructor seed) passed on "
-                         "every case" % (nv, hist["kinds"].get("gen", 0), len(broken) - nv))
-        run.cov["validator_only_first_case"] = {"case": cases[broken[0][0]], "why": broken[0][1],
-                                                "trace_fns": [e.get("fn") for e in res[broken[0][0]].get("trace", [])][:40]}
+    # Replay mismatches with every validator / direct clause check passing.  Quiet ONLY for a GLOBAL change of the RNG call
+    # pattern: every generate_data case mismatches and each one's recorded call kinds differ from the model's call_pattern
+    # (C19_call_pattern) -- a rewrite of the sampling core; the property is then decided by the validator (C19_check_sound).
+    # Mismatches in only some cases, mismatches under the SAME call pattern, or a naive-generator run whose drawn needle is
+    # not observable are a broken correspondence: VIOLATION ... no-failing-input-found naming the cases.
+    gen_broken = [b for b in broken if cases[b[0]].get("kind", "gen") == "gen"]
+    other_broken = [b for b in broken if cases[b[0]].get("kind", "gen") != "gen"]
+    global_change = bool(gen_broken) and len(gen_broken) == gen_in_scope and all(b[2] for b in gen_broken)
+    unexplained = other_broken + ([] if global_change else gen_broken)
+    run.oblige("correspondence:trace replay reproduces the implementation's matrix (or: global RNG call-pattern change, every "
+               "output accepted by the Coq validator and by the dtype/shape/same-seed checks)", not unexplained and not (broken and failing),
+               "replayed exactly %d; mismatching %d (global pattern change: %s)%s" % (
+                   replayed, len(broken), global_change, ("; first: " + broken[0][1]) if broken else ""))
+    if unexplained and not failing:
+        unexplained.sort(key=lambda b: (cells(cases[b[0]]), b[0]))
+        i, why, _ = unexplained[0]
+        run.violation("broken-obligation", "correspondence:trace-replay (model and code disagree on %d of %d replayed cases; "
+                      "validators accept every output)" % (len(unexplained), len(idx)),
+                      case=cases[i], impl={"X": res[i].get("X"), "trace_fns": [e.get("fn") for e in res[i].get("trace", [])][:60]},
+                      model=why, clause="none found: validator and direct clause checks accept every implementation output",
+                      found_input=False,
+                      extra={"mismatching_cases": [{"case": cases[j], "why": w, "call_pattern_differs": pd}
+                                                   for j, w, pd in unexplained[:10]], "count": len(unexplained)})
+    if global_change and not failing:
+        run.notes.append("trace replay not applicable to this RNG call pattern (global change: all %d generate_data cases "
+                         "diverge in the kinds of RNG calls made); property decided by the Coq validator (C19_check_sound) on "
+                         "%d outputs; dtype, shape and same-seed determinism (second call on the same instance after extra "
+                         "draws, fresh instance with another constructor seed) passed on every case"
+                         % (gen_in_scope, len(gen_broken)))
+        run.cov["validator_only_first_case"] = {"case": cases[gen_broken[0][0]], "why": gen_broken[0][1],
+                                                "trace_fns": [e.get("fn") for e in res[gen_broken[0][0]].get("trace", [])][:40]}
     run.cov["replayed_exactly"] = replayed
-    run.cov["validator_only_cases"] = len(broken)
-    run.cov["unsorted_structure_replay_mismatch(informational)"] = informational
+    run.cov["validator_only_cases"] = len(gen_broken) if global_change else 0
+    run.cov["replay_mismatches"] = len(broken)
     run.cov["validator_evaluated_on"] = sum(1 for i in idx if cases[i].get("kind", "gen") == "gen")
     run.cov["input_distribution"] = hist
     run.cov["exhaustive"] = False
@@ -489,8 +522,12 @@ def check(run, replay):
         "shuffle permutes in place; randint(10, 100, size=(r, c)) returns an r x c matrix within [10, 100)",
         "the stream after np.random.seed(s) is a function of s (tested: three runs with the same seed from different "
         "generator states give equal arrays)",
-        "k > 0, integer indices >= 0, integer domain values inside int32 (generated so); frequencies are non-negative "
-        "weights with positive sum",
+        "k > 0, integer indices >= 0; frequencies are non-negative weights with positive sum",
+        "STATED PRECONDITION: domain values inside int32 -- the code does not raise outside it, numpy wraps silently; such "
+        "argument sets are generated (~3%), counted (input_distribution.outside_int32_precondition) and only checked for "
+        "dtype/shape/determinism",
+        "seed clause PARTIAL: 'the stream after np.random.seed(s) is a function of s' is an oracle assumption "
+        "(C19_deterministic_partial quantifies over it), tested by three same-seed runs per case",
         "structure=None and structure=[] are modelled separately and behave alike",
     ]
     run.trusted += ["harness: tools/props/c19.py (generator, literal emission, decision logic), tools/impl/impl_c19.py "
